@@ -204,10 +204,13 @@ def omp_script(mode):
     mode "do":          Dynamo0p3OMPLoopTrans on every loop, each inside its
                         own OMPParallelTrans region;
     mode "do_reprod":   as "do" with reprod=True (reproducible reductions);
+    mode "do_nosched":  as "do" with omp_schedule="none" (no schedule clause);
+    mode "do_dynamic":  as "do" with omp_schedule="dynamic";
     mode "do_region":   as "do" but ONE parallel region around all the loops
                         of an invoke when they are adjacent (falls back to
                         "do" per loop if the region is refused)."""
-    if mode not in ("parallel_do", "do", "do_reprod", "do_region"):
+    if mode not in ("parallel_do", "do", "do_reprod", "do_region",
+                    "do_nosched", "do_dynamic"):
         raise HarnessError("unknown omp mode " + mode)
     return '''
 from psyclone.psyir.nodes import Loop
@@ -226,8 +229,13 @@ def trans(psy):
                 DynamoOMPParallelLoopTrans().apply(loop)
             continue
         reprod = MODE == "do_reprod"
+        sched_kw = {"do_nosched": "none", "do_dynamic": "dynamic"}.get(MODE)
         for loop in loops:
-            Dynamo0p3OMPLoopTrans().apply(loop, {"reprod": reprod})
+            if sched_kw:
+                Dynamo0p3OMPLoopTrans(omp_schedule=sched_kw).apply(
+                    loop, {"reprod": reprod})
+            else:
+                Dynamo0p3OMPLoopTrans().apply(loop, {"reprod": reprod})
         dirs = [l.parent.parent for l in loops]
         if MODE == "do_region":
             par = dirs[0].parent
